@@ -15,5 +15,13 @@ def run(ctx):
     r = ctx.run
     r.explanation = EXPLANATION
     pm.run_all(ctx)
+    from . import c16
+    c16.tree_contracts(r, ctx.lib)
     c15.check_merge(r, ctx.lib)
+    # "a field bound to its XML name": the binding rules of the renderer (shared with C10/C02/C13)
+    from . import c10, renderer
+    Rn = renderer.Renderer(ctx.lib)
+    if Rn.ok:
+        c10.use_rules(r, Rn)
+        c10.rename_rules(r, Rn)
     r.assume("conformance to today's mechanism (frozen instance table PM1-PM16); the behavioural claim itself is not decided statically")
